@@ -131,8 +131,8 @@ type recorder struct {
 }
 
 func (rc *recorder) handle(name string, args ...any) {
-	if strings.HasPrefix(name, "ks.") {
-		return // keyspace scheduler gates: not file operations
+	if !(strings.HasPrefix(name, "aof.") || strings.HasPrefix(name, "snap.") || strings.HasPrefix(name, "cmd.") || name == "end.running") {
+		return // scheduler gates, cache and pub/sub points: not file operations
 	}
 	rc.mu.Lock()
 	if rc.armed && rc.inRw && rc.interleave != nil && name == rc.interleaveAt {
